@@ -78,3 +78,19 @@ Example C14_example_run :
   map tid (all p) = [3; 4] /\ verified p = [3; 2] /\
   match afind 7 (accts p) with Some L => procs L = [0] | None => False end.
 Proof. vm_compute. repeat split. Qed.
+
+(* A quirk that the property text does not forbid (documented in docs/C14.md): the processable run is gap-free in
+   itself but need not start at the sender's lowest pooled nonce.  Nonce 3 is promoted while it is alone; nonces 0 and 1
+   arrive later and are never promoted while 3 stays (GetPromotable skips "as many lowest nonces as there are
+   processables"), and GetUnprocessables then lists the processable nonce 3 as unprocessable. All invariants hold. *)
+Example C14_processables_need_not_be_lowest :
+  let c := mkCfg 3 3 0 1 in
+  let t3 := mkTx 1 7 3 100 5 in let t0 := mkTx 2 7 0 100 6 in let t1 := mkTx 3 7 1 100 7 in
+  let p := run c [OAdd t3 AOk true []; OReorgSpawn; OReorgStep 7 []; OReorgStep 7 []; OReorgStep 7 [];
+                  OAdd t0 AOk true []; OAdd t1 AOk true []; OReorgSpawn; OReorgStep 7 []; OReorgStep 7 []; OReorgStep 7 []] in
+  match afind 7 (accts p) with
+  | Some L => procs L = [3] /\ sortN (nonces L) = [0; 1; 3] /\ get_promotable L = [] /\
+              map tnonce (get_unprocessables L) = [1; 3]
+  | None => False
+  end.
+Proof. vm_compute. repeat split. Qed.
